@@ -65,11 +65,10 @@ MOD_ITEMS = {
     "unsafeextern": dict(src="pub unsafe extern \"C\" fn a{n}(deps: %s) -> u32 {{ {n} }}" % ANY, member=True, call="unsafe"),
     "asyncextern": dict(src="pub async extern \"C\" fn a{n}(deps: %s) -> u32 {{ {n} }}" % ANY, member=True, call=None, compiles=False),
     "asyncunsafeextern": dict(src="pub async unsafe extern \"C\" fn a{n}(deps: %s) -> u32 {{ {n} }}" % ANY, member=True, call=None, compiles=False),
-    "constunsafe": dict(src="pub const unsafe fn a{n}(deps: %s) -> u32 {{ {n} }}" % ANY, member=True, call=None, compiles=False),
-    "constextern": dict(src="pub const extern \"C\" fn a{n}(deps: %s) -> u32 {{ {n} }}" % ANY, member=True, call=None, compiles=False),
-    "constunsafeextern": dict(src="pub(crate) const unsafe extern \"C\" fn a{n}(deps: %s) -> u32 {{ {n} }}" % ANY, member=True, call=None, compiles=False),
-    "const":    dict(src="pub const fn a{n}(deps: %s) -> u32 {{ {n} }}" % ANY, member=True, call=None,
-                     compiles=False),  # const fn cannot be a trait method: token view only
+    "constunsafe": dict(src="pub const unsafe fn a{n}(deps: %s) -> u32 {{ {n} }}" % ANY, member=True, call="unsafe"),
+    "constextern": dict(src="pub const extern \"C\" fn a{n}(deps: %s) -> u32 {{ {n} }}" % ANY, member=True, call="sync"),
+    "constunsafeextern": dict(src="pub(crate) const unsafe extern \"C\" fn a{n}(deps: %s) -> u32 {{ {n} }}" % ANY, member=True, call="unsafe"),
+    "const":    dict(src="pub const fn a{n}(deps: %s) -> u32 {{ {n} }}" % ANY, member=True, call="sync"),   # (the trait METHOD is not const)
     # things that must NOT become trait methods
     "priv":     dict(src="fn p{n}(deps: %s) -> u32 {{ {n} }}" % ANY, member=False),
     "pasync":  dict(src="async fn p{n}(deps: %s) -> u32 {{ {n} }}" % ANY, member=False),
